@@ -13,7 +13,6 @@ body=body.replace("%fn read_varint async","%fn read_varint_async async")
 body=body.replace("(*self.trans).rem()","self.reader.stream()")
 body=body.replace("self.trans.read_u8()?","self.reader.read_u8()?")
 body=body.replace("            @new.pending_read_bool_field_identifier == @old.pending_read_bool_field_identifier,\n","")
-hdr=s[s.index("/// the input starts with a terminated varint"):s.index("pub open spec fn vmax<VI: VarInt>()")]
 out="""# GENERATED from _compact_reader.vu by tools/mk_async_compact.py: the async twin gets the same contracts
 %file pilota/src/thrift/compact.rs
 %item const COMPACT_BOOLEAN_TRUE exec_const=1u8
@@ -26,8 +25,8 @@ pub open spec fn rstate_eq<R>(a: &TAsyncCompactProtocol<R>, b: &TAsyncCompactPro
     a.last_read_field_id == b.last_read_field_id && a.read_field_id_stack@ == b.read_field_id_stack@
         && a.pending_read_bool_value == b.pending_read_bool_value
 }
-"""+hdr+"""pub open spec fn vmax<VI: VarInt>() -> nat { ((vstd::layout::size_of::<VI>() * 8 + 7) / 7) as nat }
 %endraw
+%use _cpvarint.vu
 """+body
 extra="""%fn read_string async
     ensures res is Ok ==> ({ let n = cp_varint_val::<u32>(@old.inp()); cp_varint_at::<u32>(@old.inp(), 5, n) && string_bytes(&res->Ok_0).len() == n
